@@ -9,7 +9,7 @@ Open Scope Z_scope.
 
 (* ---- Part A: the scan ---- *)
 Definition namec_b (c : Z) : bool :=
-  (0 <=? c) && (c <=? 127) && negb (is_space c) && negb (c =? 58) && negb (c =? 59) && negb (c =? 61).
+  is_ascii c && negb (is_space c) && negb (c =? 58) && negb (c =? 59) && negb (c =? 61).
 
 (* the name of a TZID parameter ends at the first ':' or ';' (5fe9b57) *)
 Definition nodelim (s : str) : bool := negb (has_char 58 s) && negb (has_char 59 s).
@@ -130,7 +130,7 @@ Proof. intros. apply tzid_findall_one_d; auto. Qed.
 Lemma namec_nodelim name : (forall x, In x name -> namec_b x = true) -> nodelim name = true.
 Proof.
   intro H. unfold nodelim. rewrite !has_char_false; [reflexivity| |];
-    apply Forall_forall; intros x Hx; specialize (H x Hx); unfold namec_b in H; lia.
+    apply Forall_forall; intros x Hx; specialize (H x Hx); unfold namec_b, is_ascii, is_space in H; lia.
 Qed.
 
 (* ---- Part B: a spelled date value and rule line never contain "TZ" ---- *)
@@ -289,7 +289,7 @@ Lemma namec_upc c : namec c = true ->
   is_ascii (upc c) = true /\ is_space (upc c) = false /\ is_lower (upc c) = false /\
   upc c <> 58 /\ upc c <> 59 /\ upc c <> 61.
 Proof.
-  unfold namec, upc, is_ascii, is_space, is_lower. intro H.
+  unfold namec, namec_b, upc, is_ascii, is_space, is_lower. intro H.
   destruct ((97 <=? c) && (c <=? 122)) eqn:E; lia.
 Qed.
 
@@ -349,7 +349,7 @@ Proof.
   assert (Hasc : forallb is_ascii T = true).
   { unfold T. rewrite !forallb_app. cbn [forallb]. rewrite !forallb_app. cbn [forallb].
     assert (A1 : forallb is_ascii name = true).
-    { apply forallb_forall. intros x Hx. specialize (Hnm x Hx). unfold namec, is_ascii, is_space in *. lia. }
+    { apply forallb_forall. intros x Hx. specialize (Hnm x Hx). unfold namec, namec_b, is_ascii, is_space in *. lia. }
     assert (A2 : forallb is_ascii dv = true) by (apply txt_ascii, linec_txtc, valc_linec, atoms_vals, Hdv).
     assert (A3 : forallb is_ascii l2 = true) by (apply txt_ascii, linec_txtc, H2).
     rewrite A1, A2, A3. reflexivity. }
@@ -370,7 +370,7 @@ Proof.
   assert (SL1 : nosp L1).
   { unfold L1. apply Forall_app; split; [repeat constructor|]. apply Forall_app; split; [repeat constructor|].
     apply Forall_app; split.
-    - apply Forall_forall. intros x Hx. specialize (Hnm x Hx). unfold namec in Hnm.
+    - apply Forall_forall. intros x Hx. specialize (Hnm x Hx). unfold namec, namec_b in Hnm.
       destruct (is_space x); [|reflexivity]. rewrite !andb_false_r in Hnm. cbn in Hnm. discriminate.
     - constructor; [reflexivity|]. apply linec_nosp, valc_linec, atoms_vals, Hdv. }
   assert (NL1 : L1 <> []) by discriminate.
@@ -474,7 +474,7 @@ Proof.
   assert (C1 : Forall (fun ch => is_ascii ch = true /\ is_space ch = false) L1).
   { unfold L1. apply Forall_app; split; [repeat constructor|]. apply Forall_app; split; [repeat constructor|].
     apply Forall_app; split.
-    - apply Forall_forall. intros x Hx. specialize (Hnm x Hx). unfold namec in Hnm.
+    - apply Forall_forall. intros x Hx. specialize (Hnm x Hx). unfold namec, namec_b in Hnm.
       destruct (is_ascii x), (is_space x); cbn in Hnm; try discriminate. split; reflexivity.
     - constructor; [split; reflexivity|]. eapply Forall_impl; [|exact Hdv]. intros ch Hc'.
       destruct (linec_props ch) as [P1 [_ P3]]; [unfold linec, valc; rewrite Hc'; reflexivity|]. split; assumption. }
